@@ -57,6 +57,8 @@ static void jputs(const char *s)
     if (jlen + l + 1 > jcap) { jcap = (jcap + l + 1) * 2; jb = realloc(jb, jcap); }
     memcpy(jb + jlen, s, l + 1); jlen += l;
 }
+static int jquiet;
+void jo_quiet(int q) { jquiet = q; }
 static void jkey(const char *k)
 {
     if (!jfirst) jputs(","); jfirst = 0;
@@ -76,6 +78,10 @@ static void jesc(const char *v)
 }
 void jo_begin(const case_t *c)
 {
+    /* capacity is reserved up front so that recording values or failures later never changes the live heap
+       (the leak checks compare heap sizes across calls) */
+    if (jcap < 131072) { jcap = 131072; jb = realloc(jb, jcap); }
+    if (jfl_cap < 32768) { jfl_cap = 32768; jfaillist = realloc(jfaillist, jfl_cap); }
     jlen = 0; jfirst = 1; jfails = 0; jfirstkey[0] = 0; jfl_len = 0;
     if (jfaillist) jfaillist[0] = 0;
     jputs("{");
@@ -84,16 +90,16 @@ void jo_begin(const case_t *c)
     char p[2] = { PREC_CH, 0 };
     jo_str("prec", p);
 }
-void jo_int(const char *k, long long v) { char b[64]; jkey(k); snprintf(b, sizeof b, "%lld", v); jputs(b); }
+void jo_int(const char *k, long long v) { char b[64]; if (jquiet) return; jkey(k); snprintf(b, sizeof b, "%lld", v); jputs(b); }
 void jo_dbl(const char *k, double v)
 {
-    char b[64]; jkey(k);
+    char b[64]; if (jquiet) return; jkey(k);
     if (isnan(v)) jputs("\"nan\"");
     else if (isinf(v)) jputs(v > 0 ? "\"inf\"" : "\"-inf\"");
     else { snprintf(b, sizeof b, "%.6g", v); jputs(b); }
 }
-void jo_str(const char *k, const char *v) { jkey(k); jesc(v); }
-void jo_raw(const char *k, const char *raw) { jkey(k); jputs(raw); }
+void jo_str(const char *k, const char *v) { if (jquiet) return; jkey(k); jesc(v); }
+void jo_raw(const char *k, const char *raw) { if (jquiet) return; jkey(k); jputs(raw); }
 void jo_fail(const char *key, const char *fmt, ...)
 {
     char msg[512];
@@ -102,15 +108,14 @@ void jo_fail(const char *key, const char *fmt, ...)
     if (jfails <= 12) {
         size_t need = strlen(key) + strlen(msg) + 64;
         if (jfl_len + need > jfl_cap) { jfl_cap = (jfl_cap + need) * 2; jfaillist = realloc(jfaillist, jfl_cap); }
-        /* build JSON array elements: {"key":..,"msg":..} */
-        char *save_jb = jb; size_t save_len = jlen, save_cap = jcap; int save_first = jfirst;
-        jb = NULL; jlen = 0; jcap = 0;
-        if (jfl_len) jputs(",");
-        jputs("{\"key\":"); jesc(key); jputs(",\"msg\":"); jesc(msg); jputs("}");
-        if (jfl_len + jlen + 1 > jfl_cap) { jfl_cap = (jfl_len + jlen + 1) * 2; jfaillist = realloc(jfaillist, jfl_cap); }
-        memcpy(jfaillist + jfl_len, jb, jlen + 1); jfl_len += jlen;
-        free(jb);
-        jb = save_jb; jlen = save_len; jcap = save_cap; jfirst = save_first;
+        /* element {"key":..,"msg":..} appended to the preallocated list */
+        char el[1400]; size_t k = 0;
+        k += snprintf(el + k, sizeof el - k, "%s{\"key\":\"", jfl_len ? "," : "");
+        for (const char *q = key; *q && k < sizeof el - 8; ++q) { if (*q == '"' || *q == '\\') el[k++] = '\\'; if ((unsigned char)*q >= 0x20) el[k++] = *q; }
+        k += snprintf(el + k, sizeof el - k, "\",\"msg\":\"");
+        for (const char *q = msg; *q && k < sizeof el - 8; ++q) { if (*q == '"' || *q == '\\') el[k++] = '\\'; if ((unsigned char)*q >= 0x20) el[k++] = *q; else el[k++] = ' '; }
+        k += snprintf(el + k, sizeof el - k, "\"}");
+        if (jfl_len + k + 1 < jfl_cap) { memcpy(jfaillist + jfl_len, el, k + 1); jfl_len += k; }
     }
 }
 int jo_nfail(void) { return jfails; }
@@ -208,6 +213,7 @@ uint64_t csc_hash(const csc_t *A)
 /* live heap bytes: the sanitizer's own count when built with ASan, mallinfo2 otherwise */
 #include <malloc.h>
 extern size_t __sanitizer_get_current_allocated_bytes(void) __attribute__((weak));
+int heap_precise(void) { return __sanitizer_get_current_allocated_bytes != 0; }
 size_t heap_bytes(void)
 {
     if (__sanitizer_get_current_allocated_bytes) return __sanitizer_get_current_allocated_bytes();
